@@ -7,7 +7,7 @@ UNIT = "asmjit/core/builder.cpp"
 
 
 def run(chk):
-    f = chk.facts(UNIT, funcs=r"asmjit::BaseBuilder::[A-Za-z_0-9]+$", records=r"^asmjit::(BaseBuilder|BaseEmitter)$")
+    f = chk.facts(UNIT, funcs=r"asmjit::BaseBuilder::[A-Za-z_0-9]+$|asmjit::BaseBuilder_[A-Za-z_0-9]+$", records=r"^asmjit::(BaseBuilder|BaseEmitter)$")
     fns = {}
     for fo in f["functions"]:
         fn = cfg.Fn(fo)
@@ -35,11 +35,23 @@ def run(chk):
             if x.get("cls", "").endswith("BaseBuilder") and cn != name and reaches_add_node(cn, seen + (name,)):
                 return True
         return False
+    # serialize_to and the static helpers it calls (a replay branch may live in a helper)
+    closure = [ser]
+    seen_c = {ser.name}
+    k = 0
+    while k < len(closure):
+        for i, x in closure[k].calls():
+            c = (x.get("callee") or "").replace("asmjit::", "")
+            if c in fns and fns[c].name not in seen_c and c.startswith("BaseBuilder_"):
+                seen_c.add(fns[c].name)
+                closure.append(fns[c])
+        k += 1
     dst_calls = set()
-    for i, x in ser.calls(lambda x: x["k"] == "mcall" and x.get("obj")):
-        o = ser.e(ser.strip(x["obj"]))
-        if o and o["k"] == "ref" and o.get("name") == "dst":
-            dst_calls.add(x["cn"])
+    for g in closure:
+        for i, x in g.calls(lambda x: x["k"] == "mcall" and x.get("obj")):
+            o = g.e(g.strip(x["obj"]))
+            if o and o["k"] == "ref" and "BaseEmitter" in o.get("ty", "") and o.get("dk") in ("parm", "local"):
+                dst_calls.add(x["cn"])
     equiv = {"embed": "embed_data_array"}
     nrep = 0
     for name in sorted(set(overrides)):
@@ -50,7 +62,7 @@ def run(chk):
         chk.ob(R, "serialize_to|replays|" + name, want in dst_calls, loc="%s:%d" % (UNIT, ser.line),
                detail="BaseBuilder::%s records a node but serialize_to never calls dst->%s()" % (name, want))
     chk.floor(R + ":node-creating-overrides", nrep, 8)
-    preds = {x["cn"] for i, x in ser.calls(lambda x: x.get("cn", "").startswith("is_") and "Node" in x.get("cls", ""))}
+    preds = {x["cn"] for g in closure for i, x in g.calls(lambda x: x.get("cn", "").startswith("is_") and "Node" in x.get("cls", ""))}
     for p in ("is_inst", "is_label", "is_const_pool", "is_align", "is_embed_data", "is_embed_label", "is_embed_label_delta", "is_section", "is_comment"):
         chk.ob(R, "serialize_to|tests|" + p, p in preds, loc="%s:%d" % (UNIT, ser.line), detail="serialize_to never tests node->%s()" % p)
 
@@ -60,47 +72,75 @@ def run(chk):
                  "accessors and receives op[0], op[1], op[2], op_ext positionally; the writes that fill op_array[3..5] (copy and reset of the "
                  "unused tail) sit inside the per-node loop; BaseBuilder::_emit stores options, extra register, comment and all operands in the node")
 
-    def elem_fx(eid, x):
-        if x["k"] == "mcall" and x.get("obj") and x.get("cn") in ("set_inst_options", "set_extra_reg", "set_inline_comment"):
-            o = ser.e(ser.strip(x["obj"]))
-            if o and o.get("name") == "dst":
-                src = re.sub(r"\s+", "", ser.text(x["args"][0]))
-                want = {"set_inst_options": "options()", "set_extra_reg": "extra_reg()", "set_inline_comment": "inline_comment()"}[x["cn"]]
-                if src.endswith(want) and "node" in src:
-                    return (((x["cn"],),), ())
-        return None
-    m = Must(ser, elem_fx, None)
-    emits = [(i, x) for i, x in ser.calls(lambda x: x.get("cn") == "_emit")]
-    chk.need(len(emits) == 1, "serialize_to: expected exactly one dst->_emit call")
+    # the function that replays an instruction node: serialize_to itself or a static helper it calls
+    G = None
+    for g in closure:
+        if any(True for i, x in g.calls(lambda x: x.get("cn") == "_emit" and x["k"] == "mcall")):
+            G = g
+    chk.need(G is not None, "no dst->_emit call found in serialize_to or its helpers")
+
+    def setter_facts(g):
+        def elem_fx(eid, x):
+            if x["k"] == "mcall" and x.get("obj") and x.get("cn") in ("set_inst_options", "set_extra_reg", "set_inline_comment"):
+                o = g.e(g.strip(x["obj"]))
+                if o and "BaseEmitter" in o.get("ty", ""):
+                    src = re.sub(r"\s+", "", g.text(x["args"][0]))
+                    want = {"set_inst_options": "options()", "set_extra_reg": "extra_reg()", "set_inline_comment": "inline_comment()"}[x["cn"]]
+                    if src.endswith(want) and "node" in src:
+                        return (((x["cn"],),), ())
+            return None
+        return Must(g, elem_fx, None)
+    mG = setter_facts(G)
+    emits = [(i, x) for i, x in G.calls(lambda x: x.get("cn") == "_emit" and x["k"] == "mcall")]
+    chk.need(len(emits) == 1, "%s: expected exactly one dst->_emit call" % G.name)
     ei, ex = emits[0]
-    st = m.before(ei) or frozenset()
-    for s in ("set_inst_options", "set_extra_reg", "set_inline_comment"):
-        chk.ob(R2, "serialize_to|" + s, (s,) in st, loc=ser.loc(ei), detail="dst->_emit can run without dst->%s(node->...) on that path" % s)
-    args = [re.sub(r"\s+", "", ser.text(a)) for a in ex["args"]]
+    st = set(mG.before(ei) or frozenset())
+    call_in_ser = None
+    if G is not ser:
+        mS = setter_facts(ser)
+        for i, x in ser.calls(lambda x: x.get("callee") == G.name):
+            call_in_ser = i
+            st |= set(mS.before(i) or frozenset())
+        chk.need(call_in_ser is not None, "serialize_to does not call %s directly" % G.name)
+    for sname in ("set_inst_options", "set_extra_reg", "set_inline_comment"):
+        chk.ob(R2, "serialize_to|" + sname, (sname,) in st, loc=G.loc(ei), detail="dst->_emit can run without dst->%s(node->...) on that path" % sname)
+    args = [re.sub(r"\s+", "", G.text(a)) for a in ex["args"]]
     chk.ob(R2, "serialize_to|operand-order", len(args) == 5 and args[0].endswith("inst_id()") and args[1:4] == ["op[0]", "op[1]", "op[2]"] and args[4] == "op_ext",
-           loc=ser.loc(ei), detail="dst->_emit(%s) does not pass inst_id, op[0], op[1], op[2], op_ext positionally" % ", ".join(args))
-    # op_array writes inside the per-node cycle
-    pos = ser.block_of()
-    eb = pos[ei][0]
+           loc=G.loc(ei), detail="dst->_emit(%s) does not pass inst_id, op[0], op[1], op[2], op_ext positionally" % ", ".join(args))
+    # the scratch array handed to _emit as op_ext: `op_ext = <array> + 3`
+    arr = None
+    for x in G.ex.values():
+        if x["k"] == "binop" and x["op"] == "=" and re.sub(r"\s+", "", G.text(x["lhs"])) == "op_ext":
+            mm = re.match(r"^(\w+)\+3$", re.sub(r"\s+", "", G.text(x["rhs"])))
+            if mm:
+                arr = mm.group(1)
+    chk.need(arr is not None, "%s: `op_ext = <array> + 3` not found" % G.name)
+    # writes of the scratch array happen once per node: inside the per-node loop of serialize_to, or in the helper that is called from it
+    posS = ser.block_of()
+    anchor = call_in_ser if G is not ser else ei
+    eb = posS[anchor][0]
 
     def in_cycle(b):
-        return eb in ser.reachable_from(b) and b in ser.reachable_from(eb)
+        return eb in ser.reachable_from(b) and b in ser.reachable_from(eb) and any(eb in ser.reachable_from(s2) for s2 in ser.succs(eb))
+    chk.ob(R2, "serialize_to|replay-in-loop", in_cycle(eb), loc=ser.loc(anchor), detail="the instruction replay is not inside the per-node loop")
+    posG = G.block_of()
     kinds = {"assign3": False, "copy": False, "reset": False}
-    for i, x in ser.ex.items():
+    for i, x in G.ex.items():
+        per_node = (G is not ser) or (i in posG and in_cycle(posG[i][0]))
         if x["k"] in ("opcall", "binop") and x.get("op") == "=":
             tgt = x.get("obj") or x.get("lhs")
-            t = re.sub(r"\s+", "", ser.text(tgt)) if tgt else ""
-            if t == "op_array[3]" and i in pos and in_cycle(pos[i][0]):
+            t = re.sub(r"\s+", "", G.text(tgt)) if tgt else ""
+            if t == arr + "[3]" and per_node:
                 kinds["assign3"] = True
-        if x["k"] == "mcall" and x.get("obj") and "op_array[" in ser.text(x["obj"]) and i in pos and in_cycle(pos[i][0]):
+        if x["k"] == "mcall" and x.get("obj") and (arr + "[") in G.text(x["obj"]) and per_node:
             if x.get("cn") == "copy_from":
                 kinds["copy"] = True
             if x.get("cn") == "reset":
                 kinds["reset"] = True
-    for k, v in kinds.items():
-        chk.ob(R2, "serialize_to|op_array-%s-per-node" % k, v, loc="%s:%d" % (UNIT, ser.line),
-               detail="the %s of op_array (operands 3..5 handed to _emit) is not performed inside the per-node loop: stale operands of an earlier node can leak" % k,
-               key="replaystate|op_array-%s" % k)
+    for k2, v in kinds.items():
+        chk.ob(R2, "serialize_to|op_array-%s-per-node" % k2, v, loc="%s:%d" % (UNIT, G.line),
+               detail="the %s of the scratch operand array (operands 3..5 handed to _emit) is not performed once per node: stale operands of an earlier node can leak" % k2,
+               key="replaystate|op_array-%s" % k2)
     # the tail reset loop runs up to Globals::kMaxOpCount
     be = fns.get("BaseBuilder::_emit")
     chk.need(be is not None, "BaseBuilder::_emit not found")
